@@ -149,11 +149,16 @@ PoolFacts == << Fact(D(0, 0), 1, 2, "a", "b", TRUE), Fact(D(0, 0), 3, 1, "b", "a
                Fact(DF(1, 0), 0, 5, "1", "b", FALSE), Fact(D(15, -1), 1, 0, "ab", "ab", TRUE) >>
 PoolFamily == { [fam |-> "pool", c1 |-> p[1], a1 |-> p[2], c2 |-> q[1], a2 |-> q[2], facts |-> PoolFacts] : p \in PoolTerms, q \in PoolTerms }
 
+Mut(f) == [f EXCEPT !.X = f.Y, !.GX = f.Y, !.GGX = f.Y]
+MutFacts(fs) == [i \in DOMAIN fs |-> Mut(fs[i])]
 VARIABLE case
 Alone(c, a, facts) == [i \in DOMAIN facts |-> [holds |-> Ev(c, facts[i]).b, stores |-> Ev(a, facts[i])]]
 Init == \E m \in (IF Pool THEN PoolFamily ELSE Families) :
           /\ m.c1 # m.c2 \/ m.a1 # m.a2
-          /\ case = m @@ [want1 |-> Alone(m.c1, m.a1, m.facts), want2 |-> Alone(m.c2, m.a2, m.facts)]
+          /\ case = m @@ [want1 |-> Alone(m.c1, m.a1, m.facts), want2 |-> Alone(m.c2, m.a2, m.facts),
+                          \* the same two rules while a third rule (of highest salience, built from another resource) changes a fact
+                          \* in the first cycle (F.X = F.Y): each must then behave as it would alone on the changed facts
+                          wantMut1 |-> Alone(m.c1, m.a1, MutFacts(m.facts)), wantMut2 |-> Alone(m.c2, m.a2, MutFacts(m.facts))]
 Next == UNCHANGED case
 Spec == Init /\ [][Next]_case
 \* design-level statement: the two siblings really are distinguishable on the listed facts, or are the same rule
